@@ -189,17 +189,35 @@ pub fn limits_of(layers: &[Fractions], u: &Unit) -> Limits {
     Limits { enabled: c.enabled.unwrap_or(false), accuracy: c.accuracy.unwrap_or(0.05).clamp(0.0, 1.0), max_den: c.max_denominator.unwrap_or(4).clamp(1, 16), max_whole: c.max_whole.unwrap_or(u32::MAX) }
 }
 
-/// `try_fraction` on a plain number keeps the unit and must give exactly what `new_approx` gives under the
-/// limits the units files define for that unit (or leave the number alone when that declines / is disabled)
+/// `try_fraction` on a plain number keeps the unit and the amount; with fractions disabled for the unit the
+/// number stays as it is; a fraction it returns must respect the limits the units files define for that unit
+/// (whether it approximates every value it could is not demanded)
 pub fn try_fraction_mismatch(conv: &Converter, layers: &[Fractions], unit: &Unit, v: f64) -> Option<String> {
     let lim = limits_of(layers, unit);
     let mut q: Quantity<Value> = Quantity::new(Value::Number(Number::Regular(v)), Some(unit.symbol().to_string()));
     q.try_fraction(conv);
-    let expected = if lim.enabled { Number::new_approx(v, lim.accuracy, lim.max_den, lim.max_whole) } else { None }.unwrap_or(Number::Regular(v));
-    match q.value() {
-        Value::Number(n) if format!("{n:?}") == format!("{expected:?}") && q.unit() == Some(unit.symbol()) => None,
-        other => Some(format!("try_fraction of {v} {} gave {other:?} {:?}; the units files give this unit {lim:?}, under which the approximation is {expected:?}", unit.symbol(), q.unit())),
-    }
+    let why = match q.value() {
+        _ if q.unit() != Some(unit.symbol()) => Some("the unit changed"),
+        Value::Number(Number::Regular(x)) if *x == v => None,
+        Value::Number(Number::Regular(_)) => Some("the value changed"),
+        Value::Number(n @ Number::Fraction { whole, num, den, err }) => {
+            if !lim.enabled {
+                Some("a fraction although fractions are disabled for this unit")
+            } else if *num != 0 && (*den > lim.max_den as u32 || !DENOMS.contains(den) || num >= den) {
+                Some("denominator outside the limits of the unit")
+            } else if *whole > lim.max_whole {
+                Some("whole part above the maximum of the unit")
+            } else if !(err.abs() <= lim.accuracy as f64 * v * (1.0 + 1e-9)) {
+                Some("error above the accuracy of the unit")
+            } else if !((n.value() - v).abs() <= v.abs() * 1e-12) {
+                Some("the exact value of the fraction differs from the input")
+            } else {
+                None
+            }
+        }
+        _ => Some("not a number any more"),
+    };
+    why.map(|w| format!("try_fraction of {v} {} gave {:?} {:?}: {w}; the units files give this unit {lim:?}", unit.symbol(), q.value(), q.unit()))
 }
 
 struct FracEnv {
@@ -234,6 +252,15 @@ fn frac_envs() -> Vec<FracEnv> {
         layers.extend(layer.fractions.clone());
         if let Ok(conv) = ConverterBuilder::new().with_units_file(UnitsFile::bundled()).and_then(|b| b.with_units_file(layer)).and_then(|b| b.finish()) {
             v.push(mk("bundled units + a layer changing system- and quantity-level fraction settings", conv, layers));
+        }
+    }
+    // a unit-level accuracy that is tighter than the accuracy set for its system
+    let layer_src = "[fractions]\nimperial = { enabled = true, accuracy = 0.25 }\n[fractions.unit]\ncup = { accuracy = 0.01 }\noz = { accuracy = 0.02, max_denominator = 8 }\n";
+    if let Ok(layer) = toml::from_str::<UnitsFile>(layer_src) {
+        let mut layers = base_layers.clone();
+        layers.extend(layer.fractions.clone());
+        if let Ok(conv) = ConverterBuilder::new().with_units_file(UnitsFile::bundled()).and_then(|b| b.with_units_file(layer)).and_then(|b| b.finish()) {
+            v.push(mk("bundled units + a layer with a loose system-level and tight unit-level accuracy", conv, layers));
         }
     }
     v
@@ -282,7 +309,7 @@ fn check_fraction_op(env: &FracEnv, unit: &Arc<Unit>, start: f64, end: Option<f6
     }
     if op == "try_fraction" && end.is_none() {
         if let Some(m) = try_fraction_mismatch(conv, &env.layers, unit, start) {
-            return (Some(Violation::new("try_fraction differs from the approximation under the unit's limits", format!("{} ({})", m, env.name), json!({"kind": "converter", "env": env.name, "unit": unit.symbol(), "start_bits": start.to_bits(), "end_bits": J::Null, "op": op}))), true);
+            return (Some(Violation::new("try_fraction result outside the limits of the unit", format!("{} ({})", m, env.name), json!({"kind": "converter", "env": env.name, "unit": unit.symbol(), "start_bits": start.to_bits(), "end_bits": J::Null, "op": op}))), true);
         }
     }
     let Some(new_unit) = q.unit_info(conv) else { return (None, false) };
